@@ -82,3 +82,7 @@ impl OutPointVec {
 #[verifier::external_body]
 pub fn vf_str_to_owned(s: &str) -> (r: String) { unimplemented!() }
 // ===== end =====
+// <[T]>::to_vec: an element-wise clone (std semantics assumed); for u8 the copy is the same sequence
+pub assume_specification<T: Clone> [ <[T]>::to_vec ] (s: &[T]) -> (r: Vec<T>)
+    ensures r@.len() == s@.len(), forall|i: int| 0 <= i < s@.len() ==> cloned::<T>(#[trigger] s@[i], r@[i]);
+pub broadcast proof fn lemma_cloned_u8(a: u8, b: u8) requires #[trigger] cloned::<u8>(a, b) ensures a == b { }
